@@ -15,18 +15,18 @@ CONSTANTS
   cb = cb
   bad = bad
   unk = unk
-  Threads = {t1, t2, t3}
+  Threads = {t1, t2}
   Main = t1
-  Opts = {o1}
+  Opts = {o1, o2}
   Vals = {v0, v1}
   Cells = {c0, c1, cb}
-  Mutable = {}
+  Mutable = {c1}
   Heap0 <- Heap2
-  Default <- Def1
+  Default <- Def2
   Bad = bad
   Unknown = unk
-  MaxNest <- NestC
-  MaxMap = 2
+  MaxNest <- NestTH
+  MaxMap = 1
 VIEW View
 INVARIANT TypeOK
 INVARIANT HeapUntouched
